@@ -69,7 +69,7 @@ CFG = {
                   "clamps and LastColOk across a resize for every old state (resize_frame). Also tied by Gen/TermModes.lean (dispatch labels with their callee, mode tables, sgr labels, attribute bits, tab stops, "
                   "event channel, loop shape, DCS guards and size limit) and by the correspondence check (snapshot after every op, real DCS/OSC "
                   "payloads). Validated by correspondence only: nothing of the control functions' bodies (the dispatch skeleton goes through generated "
-                  "tables); the pinned primitives listed in the trusted base. Hypotheses checked at run time: Width >= 0, CSI parameters non-empty, sixel decoder tame within the size limit. Not judged (recorded in notes/C05.md, round 5): DSR 6 in the pending-wrap state reports column width+1 (a VT/xterm reports the last column) — outside C06's text (deferred-wrap state unconstrained; DSR not in its vocabulary) and unreachable in C12's start-up exchange (CSI H precedes the request); the reply bytes are tied by theorems, not compared with the real code in the C05 stream (C12's stream does that).",
+                  "tables); the pinned primitives listed in the trusted base. Hypotheses checked at run time: Width >= 0, CSI parameters non-empty, sixel decoder tame within the size limit. Not judged (recorded in notes/C05.md, round 5): DSR 6 in the pending-wrap state reports column width+1 (a VT/xterm reports the last column) — outside C06's text (deferred-wrap state unconstrained; DSR not in its vocabulary) and unreachable in C12's start-up exchange (CSI H precedes the request); the reply bytes are tied by theorems (and, through replies_are_translated, to C12's reply model, which C12's stream compares with the real replies read back through VerifTakeReplies); the C05 stream itself does not compare them.",
     "technique": "Lean 4 proof (invariant + per-operation safety lemmas + induction over histories; LTS invariant for the event loop)",
     "timeout": 1500,
 }
